@@ -2,6 +2,8 @@ import BindgenModel.Driver.C03
 import BindgenModel.Driver.C07
 import BindgenModel.Driver.C08
 import BindgenModel.Driver.C05
+import BindgenModel.Driver.C11
+import BindgenModel.Driver.C12
 /-! `bgmodel`: one request per input line, one answer per output line (lines between `ir-begin`
 and `ir-end` load an IR dump and produce no output). -/
 open BindgenModel
@@ -22,6 +24,8 @@ def dispatch (st : St) (line : String) : St × Option String :=
   | ["irderives"] => (st, some (Driver.C08.derives st.ir))
   | ["irchk", seed] => (st, some (Driver.C07.check st.ir (seed.toNat?.getD 0)))
   | "c05" :: rest => (st, some (Driver.C05.handle rest))
+  | "det" :: rest => (st, some (Driver.C11.handle rest))
+  | "entry" :: rest => (st, some (Driver.C12.handle rest))
   | _ => (st, some "bad-op")
 
 partial def loop (h : IO.FS.Stream) (out : IO.FS.Stream) (st : St) : IO Unit := do
